@@ -191,3 +191,9 @@ Proof.
       pose proof (rules_roundtrip (r :: L') ltac:(discriminate) HL [] [x20] (Forall_nil _)) as H.
       cbn [app] in H. apply H. constructor; [reflexivity | constructor].
 Qed.
+
+(* rule lists made of declared rule names *)
+Lemma forallb_incl {A} (f : A -> bool) l l' : incl l l' -> forallb f l' = true -> forallb f l = true.
+Proof.
+  intros Hi H. apply forallb_forall. intros x Hx. rewrite forallb_forall in H. apply H. apply Hi. exact Hx.
+Qed.
